@@ -208,7 +208,7 @@ func run(c *vf.Ctx) {
 	var cases []dcase
 
 	// 1. round-trip pairs
-	nPairs := c.N(700, 6000)
+	nPairs := c.N(500, 6000)
 	rp := c.Rand("pairs")
 	var diffCases []int
 	for i := 0; i < nPairs; i++ {
@@ -241,7 +241,7 @@ func run(c *vf.Ctx) {
 	}
 	// 2. mutations of go-git's own deltas
 	rm := c.Rand("diffmut")
-	nDiffMut := c.N(1200, 12000)
+	nDiffMut := c.N(900, 12000)
 	for i := 0; i < nDiffMut && len(diffCases) > 0; i++ {
 		b := cases[diffCases[rm.Intn(len(diffCases))]]
 		if len(b.delta) > 3000 {
@@ -254,7 +254,7 @@ func run(c *vf.Ctx) {
 	}
 	// 3. synthetic structured deltas, plain and mutated
 	rs := c.Rand("synth")
-	nSynth := c.N(3200, 35000)
+	nSynth := c.N(2300, 35000)
 	var truncSeeds []int
 	for i := 0; i < nSynth; i++ {
 		base := pickBase(rs)
@@ -262,7 +262,7 @@ func run(c *vf.Ctx) {
 		mut := "none"
 		if rs.Intn(3) == 0 {
 			d, mut = mutate(rs, d, segs)
-		} else if len(d) <= 48 && len(truncSeeds) < c.N(50, 400) {
+		} else if len(d) <= 48 && len(truncSeeds) < c.N(40, 400) {
 			truncSeeds = append(truncSeeds, len(cases))
 		}
 		cases = append(cases, dcase{base: base, delta: d, origin: "synth", level: []int{-1, 0}[i%2], shape: shape + "/mut=" + mut})
@@ -278,7 +278,7 @@ func run(c *vf.Ctx) {
 	}
 	// 5. random bytes behind a correct source size
 	rr := c.Rand("random")
-	for i := 0; i < c.N(600, 5000); i++ {
+	for i := 0; i < c.N(450, 5000); i++ {
 		base := pickBase(rr)
 		body := make([]byte, rr.Intn(24))
 		rr.Read(body)
@@ -465,13 +465,13 @@ func run(c *vf.Ctx) {
 		}
 	}
 
-	c.Floor("cases evaluated", c.Counter("model_accepts")+c.Counter("model_rejects"), c.N(5500, 50000))
-	c.Floor("cases git accepts", c.Counter("model_accepts"), c.N(1500, 12000))
-	c.Floor("cases git rejects", c.Counter("model_rejects"), c.N(2500, 20000))
-	c.Floor("applier runs", c.Counter("applier_runs"), c.N(80000, 600000))
+	c.Floor("cases evaluated", c.Counter("model_accepts")+c.Counter("model_rejects"), c.N(4000, 50000))
+	c.Floor("cases git accepts", c.Counter("model_accepts"), c.N(1100, 12000))
+	c.Floor("cases git rejects", c.Counter("model_rejects"), c.N(1800, 20000))
+	c.Floor("applier runs", c.Counter("applier_runs"), c.N(60000, 600000))
 	c.Floor("distinct appliers/variants driven", c.SeenCount("appliers"), 38)
 	c.Floor("distinct model reject reasons exercised", c.SeenCount("reject_reasons"), 10)
-	c.Floor("git confirmations", c.Counter("git_confirmations"), c.N(250, 1000))
+	c.Floor("git confirmations", c.Counter("git_confirmations"), c.N(200, 1000))
 	c.Assume("git 2.39.5 index-pack/patch-delta.c is the reference; the delta format has not changed since")
 	c.Assume("deltas whose size headers need a shift >= 64 in get_delta_hdr_size (C undefined behaviour) or whose declared target exceeds 256 MiB are outside the domain")
 	c.Assume("base and target objects are blobs; pack entries are zlib streams whose inflated size equals the entry header (pack-level malformations belong to C07/C09)")
